@@ -62,7 +62,7 @@ Section Inv.
     moved = seq 0 F /\
     fold_left (c17_step lens) reqs (true, O) = (true, F) /\
     kernel_moved reqs = F /\ (F <= total lens)%nat /\
-    (nb0 = true -> waits = [] /\ fold_left (c18_step sh) reqs (true, false) = (true, wb)).
+    (nb0 = true -> waits = [] -> fold_left (c18_step sh) reqs (true, false) = (true, wb)).
 
   Definition Good (wb : bool) (s : st) (F : nat) : Prop := GoodL wb (s_reqs s) (s_moved s) (s_waits s) F.
 
@@ -78,8 +78,7 @@ Section Inv.
     repeat split; auto; try lia.
     - unfold c17_step, req_ok. cbn [fst snd q_ranges q_count q_moved]. rewrite R, C, Nat.eqb_refl.
       cbn. f_equal. lia.
-    - apply G5; assumption.
-    - destruct (G5 H) as [_ E]. rewrite E. reflexivity.
+    - intros N W0. rewrite (G5 N W0). reflexivity.
   Qed.
 
   Lemma goodL_succ : forall reqs moved waits F cnt nbq rs n,
@@ -98,38 +97,31 @@ Section Inv.
     - rewrite L. unfold ps. rewrite G1, P, firstn_seq, seq_app. reflexivity.
     - unfold c17_step, req_ok. cbn [fst snd q_ranges q_count q_moved]. rewrite R, C, Nat.eqb_refl.
       reflexivity.
-    - apply G5; assumption.
-    - destruct (G5 H) as [_ E]. rewrite E. unfold c18_step. cbn [fst snd q_err].
+    - intros N W0. rewrite (G5 N W0). unfold c18_step. cbn [fst snd q_err].
       rewrite would_block_0. reflexivity.
   Qed.
 
-  Lemma goodL_wait : forall reqs moved waits F w, nb0 = false ->
-    GoodL false reqs moved waits F -> GoodL false reqs moved (waits ++ [w]) F.
+  (** once a wait was requested the clause about a non-blocking caller says nothing more *)
+  Lemma goodL_wait : forall wb wb' reqs moved waits F w,
+    GoodL wb reqs moved waits F -> GoodL wb' reqs moved (waits ++ [w]) F.
   Proof.
-    intros reqs moved waits F w N (G1 & G2 & G3 & G4 & G5). unfold GoodL. repeat split; auto; congruence.
-  Qed.
-
-  Lemma goodL_nb0_false : forall wb wb' reqs moved waits F, nb0 = false ->
-    GoodL wb reqs moved waits F -> GoodL wb' reqs moved waits F.
-  Proof.
-    intros wb wb' reqs moved waits F N (G1 & G2 & G3 & G4 & G5). unfold GoodL. repeat split; auto; congruence.
+    intros wb wb' reqs moved waits F w (G1 & G2 & G3 & G4 & G5). unfold GoodL. repeat split; auto.
+    intros _ W0. destruct waits; discriminate.
   Qed.
 
   (** what holds when the call returns [r] in state [s] *)
   Definition FinalF (flag : bool) (r : Z) (s : st) : Prop :=
-    exists F wb, Good wb s F /\ s_nb s = flag /\
+    exists F, Good false s F /\ s_nb s = flag /\
       (r = Z.of_nat F \/
-       (r = -1 /\ F = O /\ (0 < total lens)%nat /\ last_err (s_reqs s) = Some (s_errno s) /\ s_errno s <> 0)) /\
-      (wb = true -> F = O -> r = -1 /\ last_err (s_reqs s) = Some (s_errno s)).
+       (r = -1 /\ F = O /\ (0 < total lens)%nat /\ last_err (s_reqs s) = Some (s_errno s) /\ s_errno s <> 0)).
 
   Definition Final := FinalF nb0.
 
   (** every exit path restores the caller's mode: during the call the flag is set *)
   Lemma final_restore : forall r s, FinalF true r s -> Final r (restore (negb nb0) s).
   Proof.
-    intros r s (F & wb & G & NB & R & W). exists F, wb. unfold restore.
-    destruct nb0; cbn [negb]; (split; [exact G|]); (split; [first [exact NB | reflexivity]|]);
-      (split; [exact R | exact W]).
+    intros r s (F & G & NB & R). exists F. unfold restore.
+    destruct nb0; cbn [negb]; (split; [exact G|]); (split; [first [exact NB | reflexivity]|]); exact R.
   Qed.
 
   (** one kernel call on an array that is the caller's unfilled suffix *)
@@ -154,13 +146,13 @@ Section Inv.
       eexists. split; [reflexivity|]. split; [exact L|]. split; [reflexivity|]. exact G'.
   Qed.
 
-  Lemma good_wait : forall limit start s F ok left' s', nb0 = false ->
-    Good false s F -> do_wait limit start s = (ok, left', s') ->
+  Lemma good_wait : forall limit start s F wb ok left' s',
+    Good wb s F -> do_wait limit start s = (ok, left', s') ->
     Good false s' F /\ s_nb s' = s_nb s /\ s_errno s' = s_errno s /\ s_reqs s' = s_reqs s.
   Proof.
-    intros limit start s F ok left' s' N G E. unfold do_wait in E.
+    intros limit start s F wb ok left' s' G E. unfold do_wait in E.
     destruct (s_wfail s) as [|b t]; inversion E; subst; cbn [s_nb s_errno s_reqs];
-      (split; [|repeat split]); unfold Good; cbn [s_reqs s_moved s_waits]; now apply goodL_wait.
+      (split; [|repeat split]); unfold Good; cbn [s_reqs s_moved s_waits]; eapply goodL_wait; exact G.
   Qed.
 
   (** the return value while nothing has been moved: 0, or -1 with the last call's errno *)
@@ -168,24 +160,21 @@ Section Inv.
     F = O -> r = 0 \/
              (r = -1 /\ (0 < total lens)%nat /\ last_err (s_reqs s) = Some (s_errno s) /\ s_errno s <> 0).
   (** a return value for [F] bytes moved, before or after the mode is restored *)
-  Lemma finalF_total_or : forall r s F wb, Good wb s F -> s_nb s = true ->
-    RW r s F -> (wb = true -> F = O -> r = -1 /\ last_err (s_reqs s) = Some (s_errno s)) ->
+  Lemma finalF_total_or : forall r s F, Good false s F -> s_nb s = true -> RW r s F ->
     FinalF true (total_or r F) s.
   Proof.
-    intros r s F wb G NB RWr Wb. exists F, wb. split; [exact G|]. split; [exact NB|].
+    intros r s F G NB RWr. exists F. split; [exact G|]. split; [exact NB|].
     destruct F as [|F].
-    - rewrite total_or_0. split; [|exact (fun H _ => Wb H eq_refl)].
+    - rewrite total_or_0.
       destruct (RWr eq_refl) as [R0 | (R1 & T & LE & NZ)]; [left; subst; reflexivity | right; auto].
-    - rewrite total_or_pos by lia. split; [left; reflexivity | intros; discriminate].
+    - rewrite total_or_pos by lia. left; reflexivity.
   Qed.
 
   Lemma finalF_exact : forall s F, Good false s F -> s_nb s = true ->
     FinalF true (Z.of_nat F) s.
   Proof.
-    intros s F G NB. exists F, false. split; [exact G|]. split; [exact NB|].
-    split; [left; reflexivity | intros; discriminate].
+    intros s F G NB. exists F. split; [exact G|]. split; [exact NB|]. left; reflexivity.
   Qed.
-
 End Inv.
 
 Lemma good_init : forall lens sh c, Good lens sh (c_nb c) false (init_st c) O.
@@ -200,7 +189,7 @@ Lemma final_C16 : forall c d r s, shape_dir (c_shape c) = Some d ->
   ok_C16_obs c (mkObs r (if r =? -1 then s_errno s else 0) (s_reqs s) (data_of c (s_moved s))
                       (s_waits s) (s_nb s) false) = true.
 Proof.
-  intros c d r s D (F & wb & (G1 & G2 & G3 & G4 & G5) & NB & R & W).
+  intros c d r s D (F & (G1 & G2 & G3 & G4 & G5) & NB & R).
   unfold ok_C16_obs. cbn [o_ret o_errno o_reqs o_data o_scribbled negb andb]. rewrite G3.
   assert (DI : data_in_order c F (data_of c (s_moved s)) = true).
   { unfold data_in_order, data_of. rewrite D, G1. destruct d.
@@ -219,20 +208,20 @@ Lemma final_C17 : forall c r s, Final (c_lens c) (c_shape c) (c_nb c) r s ->
   ok_C17_obs c (mkObs r (if r =? -1 then s_errno s else 0) (s_reqs s) (data_of c (s_moved s))
                       (s_waits s) (s_nb s) false) = true.
 Proof.
-  intros c r s (F & wb & (G1 & G2 & G3 & G4 & G5) & _). unfold ok_C17_obs. cbn [o_reqs].
+  intros c r s (F & (G1 & G2 & G3 & G4 & G5) & _). unfold ok_C17_obs. cbn [o_reqs].
   rewrite G2. reflexivity.
 Qed.
 
 Lemma final_C18 : forall c r s, Final (c_lens c) (c_shape c) (c_nb c) r s ->
+  (c_nb c = true -> s_waits s = []) ->
   ok_C18_obs c (mkObs r (if r =? -1 then s_errno s else 0) (s_reqs s) (data_of c (s_moved s))
                       (s_waits s) (s_nb s) false) = true.
 Proof.
-  intros c r s (F & wb & (G1 & G2 & G3 & G4 & G5) & NB & R & W).
+  intros c r s (F & (G1 & G2 & G3 & G4 & G5) & NB & R) ND.
   unfold ok_C18_obs. cbn [o_nb_after o_waits o_reqs o_ret o_errno]. rewrite NB, eqb_reflx. cbn [andb].
   destruct (c_nb c) eqn:N; [|reflexivity].
-  destruct (G5 eq_refl) as [W0 E]. rewrite W0, E, G3. cbn [andb].
-  destruct wb; [|reflexivity]. cbn [andb].
-  destruct (Nat.eqb F O) eqn:EF; [|reflexivity].
-  assert (F = O) by lia. destruct (W eq_refl H) as [R1 L1]. subst r.
-  change (-1 =? -1) with true. cbv iota. rewrite L1. cbn [option_eqb]. now rewrite Z.eqb_refl.
+  rewrite (ND eq_refl), (G5 eq_refl (ND eq_refl)). reflexivity.
 Qed.
+
+Lemma final_mode : forall lens sh nb0 r s, Final lens sh nb0 r s -> s_nb s = nb0.
+Proof. intros lens sh nb0 r s (F & _ & NB & _). exact NB. Qed.
